@@ -238,6 +238,43 @@ theorem lookup_priority (sat : Nat → Bytes → Bool) (noRoute : Bool) (script 
       rw [this] at hl
       simp at hl
 
+/-- **`RouteExists` is exact**: under the guards, `RouteExists(method, path)` is true exactly when some
+registered route of the method matches the path (constraints included). -/
+theorem routeExists_exact (sat : Nat → Bytes → Bool) (noRoute : Bool) (script : List Reg) (R : List Route)
+    (hR : specRoutes script = some R) (hN : normal R = true) (hstd : ∀ g ∈ script, g.method ∈ stdMethods)
+    (m path : Bytes) (hm : m ∈ stdMethods) (hp : path.head? = some '/')
+    (hS : dShadow1 R m (cutAny path) = false) (hNm : dNames1 R m (cutAny path) = false)
+    (hC : dCfall1 sat R m (cutAny path) = false) :
+    routeExists sat (build noRoute script) m path = !(cands sat R m (cutAny path)).isEmpty := by
+  have hlook := lemma_lookupM sat noRoute script R hR hN hstd m path hp hS hNm hC
+  have hT := treeOf_build noRoute script R hR m hm
+  rw [treeOf_eq _ _ hm] at hT
+  unfold getT at hT
+  unfold routeExists
+  rw [hT]
+  unfold lookupM at hlook
+  rw [treeOf_build noRoute script R hR m hm] at hlook
+  by_cases hf : R.filter (·.method = m) = []
+  · simp only [hf, if_true]
+    rw [lemma_cands_method sat R m _ hf]; rfl
+  · simp only [hf, if_false, Option.bind_some] at hlook ⊢
+    have h1 : (getRoute sat (treeFor R m) path Ctx.fresh).1.isSome =
+        (okOf (getRoute sat (treeFor R m) path Ctx.fresh)).isSome := by
+      unfold okOf; rw [Option.isSome_map]
+    have h2 : (okOf (getRoute sat (treeFor R m) path Ctx.fresh)).isSome = !(cands sat R m (cutAny path)).isEmpty := by
+      rw [hlook, Option.isSome_map]
+      unfold refRoute
+      rw [lemma_pick_isSome]
+    cases hg : (getRoute sat (treeFor R m) path Ctx.fresh).1.isSome with
+    | true => rw [hg] at h1; rw [← h2, ← h1]; simp
+    | false =>
+      simp only [Bool.false_or]
+      cases hc : compiledStatic (treeFor R m) path with
+      | false => rw [← h2, ← h1, hg]
+      | true =>
+        have := lemma_compiledStatic_sub sat R (lemma_normalR R hN) m path hp hc
+        rw [hg] at this; exact absurd this (by simp)
+
 /-! ### the reference outcome meets the relational oracle the driver evaluates -/
 
 theorem lemma_mem_insertSorted (x y : Bytes) (l : List Bytes) : y ∈ insertSorted x l ↔ y = x ∨ y ∈ l := by
